@@ -480,7 +480,7 @@ impl Check for C23 {
     fn cases(&self, tier: Tier) -> u64 {
         match tier {
             Tier::Quick => 150_000,
-            Tier::Thorough => 1_500_000, // ~9 min on 14 workers, plus <= 10 min libFuzzer (prepare)
+            Tier::Thorough => 1_200_000, // ~7 min on 14 workers (unloaded machine), plus <= 10 min libFuzzer (prepare)
         }
     }
     fn tape_len(&self, _t: Tier) -> usize {
